@@ -510,6 +510,114 @@ def source_undefined(body):
     return bad
 
 
+def source_type_conflicts(body):
+    """Variables that reach a READ with two different types (source-level, independent of the CFG builder
+    and of the checker's BFS).  A read is examined when the checker type-checks the code it sits in: code
+    reachable over real edges, plus dead code that directly follows a `return` of the function's first
+    straight-line segment (the entry block's dummy successor) and whatever is real-reachable from there."""
+
+    class S:
+        __slots__ = ("reach", "typed", "ty")
+
+        def __init__(self, reach, typed, ty):
+            self.reach, self.typed, self.ty = reach, typed, {k: frozenset(v) for k, v in ty.items()}
+
+        def key(self):
+            return (self.reach, self.typed, tuple(sorted((k, tuple(sorted(v))) for k, v in self.ty.items())))
+
+    def join(states):
+        states = [x for x in states if x is not None]
+        if not states:
+            return None
+        live = [x for x in states if x.reach]
+        pick = live or states
+        typed = [x for x in pick if x.typed]
+        ty = {}
+        for x in typed:
+            for k, v in x.ty.items():
+                ty[k] = ty.get(k, frozenset()) | v
+        return S(bool(live), bool(typed), ty)
+
+    conflicts = set()
+    dead_flag = [False]  # any statement in dead code, or a constant branch condition: liveness then also flows
+    #                 over the builder's never-taken edges and this reading does not apply
+
+    def use(x, st):
+        if st is not None and st.typed and len(st.ty.get(x, ())) >= 2:
+            conflicts.add(x)
+
+    def cond_use(c, st):
+        if c[0] == "var":
+            use(c[1], st)
+
+    def setty(st, x, t):
+        ty = dict(st.ty)
+        ty[x] = frozenset([t])
+        return S(st.reach, st.typed, ty)
+
+    def block(b, st, brk, cnt, entry_seg):
+        # entry_seg: still inside the function's first straight-line segment (the entry basic block)
+        for stmt in b:
+            if st is None:
+                return None, entry_seg
+            k = stmt[0]
+            if not st.reach:
+                dead_flag[0] = True
+            if k in ("if", "while") and stmt[1][0] == "const":
+                dead_flag[0] = True
+            if k == "asg":
+                st = setty(st, stmt[1], stmt[2])
+            elif k == "use":
+                use(stmt[1], st)
+            elif k == "nested":
+                for x in stmt[2]:
+                    if x != "p":
+                        use(x, st)
+                st = setty(st, stmt[1], "fn")
+            elif k == "return":
+                # dead code after a return is type-checked only when the return ends the entry block
+                st = S(False, st.typed and entry_seg and st.reach, st.ty) if not (st.typed and not st.reach) else S(False, False, st.ty)
+                entry_seg = False
+            elif k in ("break", "continue"):
+                (brk if k == "break" else cnt).append(st)
+                st = S(False, False, st.ty)
+            elif k == "if":
+                entry_seg = False
+                cond_use(stmt[1], st)
+                c = stmt[1]
+                dead = S(False, False, st.ty)
+                st_t = st if not (c[0] == "const" and c[1] == "False") else dead
+                st_e = st if not (c[0] == "const" and c[1] == "True") else dead
+                a, _ = block(stmt[2], st_t, brk, cnt, False)
+                e, _ = block(stmt[3], st_e, brk, cnt, False)
+                st = join([a, e])
+            elif k in ("while", "for"):
+                entry_seg = False
+                head = st
+                for _ in range(50):
+                    dead = S(False, False, head.ty)
+                    if k == "while":
+                        cond_use(stmt[1], head)
+                        c = stmt[1]
+                        body_in = head if not (c[0] == "const" and c[1] == "False") else dead
+                        exit_in = head if not (c[0] == "const" and c[1] == "True") else dead
+                    else:
+                        body_in = setty(head, stmt[1], "int")
+                        exit_in = head
+                    b2, c2 = [], []
+                    out, _ = block(stmt[2], body_in, b2, c2, False)
+                    new_head = join([st, out, *c2])
+                    if new_head.key() == head.key():
+                        break
+                    head = new_head
+                st = join([exit_in, *b2])
+        return st, entry_seg
+
+    init = S(True, True, {a: {t} for a, t in ARGS} | {"c": {"bool"}})
+    block(list(body), init, [], [], True)
+    return conflicts, dead_flag[0]
+
+
 # ------------------------------------------------------------------ protocol
 
 
@@ -604,6 +712,16 @@ def tie(ctx):
                 f"check() outcome {real} differs from the source-level reading: variables read before assignment on some path = {sorted(src_bad)}",
                 {"program": body, "source": src, "real": real, "source_oracle_undefined": sorted(src_bad), "cfg": cap},
             )
+        if not src_bad and real[0] in ("ok", "branchType"):
+            src_conf, has_dead = source_type_conflicts(body)
+            k_ = "type-oracle:" + ("skipped-dead-code" if has_dead else ("conflict" if src_conf else "clean"))
+            ctx.dist[k_] = ctx.dist.get(k_, 0) + 1
+            if not has_dead and ((real[0] == "branchType") != bool(src_conf) or (real[0] == "branchType" and real[1] not in src_conf)):
+                ctx.violation(
+                    "input:" + src,
+                    f"check() outcome {real} differs from the source-level reading: variables read with two different types = {sorted(src_conf)}",
+                    {"program": body, "source": src, "real": real, "source_oracle_type_conflicts": sorted(src_conf), "cfg": cap},
+                )
         line, rev = sx_cap(cap)
         lines.append(line)
         meta.append((src, real, rev, body))
